@@ -756,6 +756,64 @@ func TestAliasEnvironments(t *testing.T) {
 	evid.Exhaustive("one pattern text x 12 alias environments x 4 check orders", n)
 }
 
+// TestFaultingCheckFunction: a registered function whose check function faults (it looks at its first argument before
+// it looks at the argument count) on some call shape: such a call was never validated, so the script that holds it is
+// not handed back as loaded - the fault reaches the host, or the load fails; it is never accepted silently.
+func TestFaultingCheckFunction(t *testing.T) {
+	v1call, v1check := impl.FuncTables(map[string]plrt.FuncCall{
+		"first": func(ctx *plrt.Task, e *ast.CallExpr) *errchain.PlError { return nil },
+	}, map[string]plrt.FuncCheck{
+		"first": func(ctx *plrt.Task, e *ast.CallExpr) *errchain.PlError {
+			if e.Param[0].NodeType == ast.TypeNilLiteral { // index out of range for first()
+				return plrt.NewRunError(ctx, "first(nil)", e.NamePos)
+			}
+			return nil
+		},
+	})
+	v2 := map[string]*runtimev2.Fn{}
+	for k, f := range sem.V2Fns() {
+		v2[k] = f
+	}
+	v2["first"] = &runtimev2.Fn{
+		CallCheck: func(ctx *runtimev2.Task, e *ast.CallExpr) *errchain.PlError {
+			if e.Param[0].NodeType == ast.TypeNilLiteral {
+				return runtimev2.NewRunError(ctx, "first(nil)", e.NamePos)
+			}
+			return nil
+		},
+		Call: func(ctx *runtimev2.Task, e *ast.CallExpr) *errchain.PlError { return nil },
+	}
+	contexts := []string{"@", "x = @", "x = [1, @]", "if @ { }", "for ;; @ { break }", "x = {\"k\": @}", "x = 1\nif true { y = [@] } elif true { }", "for e in [1] { @ }", "x = (@)", "x = 1 + len([@])"}
+	n := 0
+	for ci, ctx := range contexts {
+		// the well-formed call loads; the faulting shape does not
+		okSrc := strings.Replace(ctx, "@", "first(1)", 1)
+		badSrc := strings.Replace(ctx, "@", "first()", 1)
+		for _, who := range []string{"v1", "v2"} {
+			load := func(src string) (bool, string) {
+				if who == "v1" {
+					s, err, crash := impl.Load1("c08.p", src, v1call, v1check)
+					return s != nil && err == nil && crash == nil, fmt.Sprint(err, crash != nil)
+				}
+				s, err, crash := impl.LoadV2("c08.p", src, v2)
+				return s != nil && err == nil && crash == nil, fmt.Sprint(err, crash != nil)
+			}
+			if ok, why := load(okSrc); !ok {
+				if who == "v2" && (strings.Contains(ctx, "len(") || strings.HasPrefix(ctx, "for e in")) {
+					continue // not a v2 program
+				}
+				rk.Fail(t, "faulting-check", replay{Src: okSrc, Expect: "accepted", V2: who == "v2"}, "%s rejected a valid call of a registered function: %s", who, why)
+			}
+			if ok, _ := load(badSrc); ok {
+				rk.Fail(t, "faulting-check", replay{Src: badSrc, Expect: "not accepted", V2: who == "v2", Offender: "first()"}, "%s handed back a loaded script although the check function of first() faulted on the call first() (the call was never validated)\nscript:\n%s", who, badSrc)
+			}
+			n++
+		}
+		evid.Case(fmt.Sprintf("faultingcheck/%d", ci), true, "faulting-check-function")
+	}
+	evid.Exhaustive("context x loader: a call on which the registered check function faults", n)
+}
+
 func TestFixedOffenders(t *testing.T) {
 	cases := []struct {
 		src  string
